@@ -348,6 +348,7 @@ theorem domFromBio_spec (kind : DomKind) (d : Dom) (h : d.WF kind) (loc : Loc) (
         have : s ≠ "" := fun e => h.domainId.1 (by rw [hd, e])
         simp [isEmpty_false_of_ne this]
     · rfl
+    · rfl
   unfold Dom.fromBio
   cases kind
   all_goals simp only [l1, firstOr_of l1', Option.getD_some, isEmpty_false_of_ne h.tool, Bool.false_eq_true, if_false, bind,
